@@ -21,8 +21,7 @@ EXPLANATION = (
 )
 
 
-def run(repo: Repo, rep: Report) -> None:
-    rep.extra["explanation"] = EXPLANATION
+def _rule_a(repo: Repo, rep: Report) -> None:
     gm = repo.mod("rdflib.graph")
     mem = repo.mod("rdflib.plugins.stores.memory")
     sp = repo.mod("rdflib.plugins.sparql.sparql")
@@ -70,6 +69,9 @@ def run(repo: Repo, rep: Report) -> None:
     rep.instances[before:] = kept
     rep.findings[:] = [f for f in rep.findings if f not in dropped]
 
+
+def _rule_b(repo: Repo, rep: Report) -> None:
+    gm = repo.mod("rdflib.graph")
     # ------------------------------------------------------------------ (b)
     rep.rule("C02.z-benign-sites", "mutation sites on read paths exempt by an explicit table row (shared with C13)", floor=0)
     rep.rule("C02.b-context-resolution-reads-dont-write",
@@ -98,25 +100,43 @@ def run(repo: Repo, rep: Report) -> None:
     rep.ob("C02.b-context-resolution-reads-dont-write", gm, full, "remove() resolves its graph without copying triples in", not iadd,
            "no graph copy reachable from remove()" if not iadd else "remove() can copy a foreign graph's triples into the dataset: " + " -> ".join(eff.witness_chain(full, iadd[0])[-2:]), node=fi.node)
 
-    context_filter_rule(repo, rep)
-    write_path_rules(repo, rep)
 
+def _rule_c(repo: Repo, rep: Report) -> None:
+    mem = repo.mod("rdflib.plugins.stores.memory")
     # ------------------------------------------------------------------ (c)
     rep.rule("C02.c-context-key", "Memory's context key is computed from both the identifier's class and its value", floor=1)
-    f = mem.func("Memory.__ctx_to_str")
-    ok = False
-    for n in own_nodes(f):
-        if isinstance(n, ast.Assign) and isinstance(n.value, ast.Call) and isinstance(n.value.func, ast.Attribute) and n.value.func.attr == "format":
-            args = [norm(a) for a in n.value.args]
-            if any("identifier.__class__" in a or "type(" in a for a in args) and any(a.endswith(".identifier") for a in args):
-                ok = True
-        if isinstance(n, ast.JoinedStr):
-            parts = [norm(v.value) for v in n.values if isinstance(v, ast.FormattedValue)]
-            if any("__class__" in p or "type(" in p for p in parts) and any(p.endswith(".identifier") for p in parts):
-                ok = True
-    rep.ob("C02.c-context-key", mem, "Memory.__ctx_to_str", "key = f(class of identifier, identifier)", ok,
-           "both kind and value enter the key" if ok else "the context key no longer depends on both the identifier's class and value: a BNode- and an IRI-named graph with the same text share a key", node=f)
+    # stated on roles and value flow (vlib/h_c02): the key function is the one method of Memory that the public add / remove / triples call with
+    # their context parameter alone - whatever it is called; what it can return is followed through its locals and through the functions it
+    # delegates to (another method, a module-level function); every key that can come back is a string built - f-string, .format, %, +, join -
+    # from an expression E together with the class of E, and for at least one of them E is the identifier of the graph.
+    from vlib import h_c02 as H
 
+    kf = H.context_key_function(mem, "Memory")
+    where = "Memory." + kf.name
+    rep.analysed("%s:%s" % (mem.rel, where))
+    leaves = H.returned_leaves(mem, kf, mem.methods("Memory"))
+    if not leaves:
+        raise AnalysisError("%s: no returned key found" % where)
+    of_identifier = 0
+    bad = None
+    for e, g in leaves:
+        E = H.key_built_from_class_and_value(e)
+        if E is None:
+            bad = bad or (e, g)
+        elif isinstance(E, ast.Attribute) and E.attr == "identifier":
+            of_identifier += 1
+    ok = bad is None and of_identifier > 0
+    why = "both kind and value enter the key"
+    if bad is not None:
+        why = ("the context key no longer depends on both the identifier's class and value: a BNode- and an IRI-named graph with the same text share a key "
+               "[%s can hand back `%s`, which is not a string built from a value together with that value's class]" % (getattr(bad[1], "name", "?"), norm(bad[0])[:80]))
+    elif not of_identifier:
+        why = "the context key no longer depends on both the identifier's class and value: no returned key is built from <graph>.identifier and its class"
+    rep.ob("C02.c-context-key", mem, where, "key = f(class of identifier, identifier)", ok, why, node=kf)
+
+
+def _rule_d(repo: Repo, rep: Report) -> None:
+    gm = repo.mod("rdflib.graph")
     # ------------------------------------------------------------------ (d)
     rep.rule("C02.d-default-graph-reregistered",
              "in Dataset.remove_graph every path through store.remove_graph(g) reaches either the test that g is (or may be) "
@@ -130,6 +150,9 @@ def run(repo: Repo, rep: Report) -> None:
     rep.ob("C02.d-default-graph-reregistered", gm, "Dataset.remove_graph", "remove_graph(g) ... if g is default: add_graph(default)", ok,
            "default graph re-registered after removal" if ok else "a path removes a graph and returns without the default-graph re-registration test: the default graph can cease to exist", node=f)
 
+
+def _rule_e(repo: Repo, rep: Report) -> None:
+    mem = repo.mod("rdflib.plugins.stores.memory")
     # ------------------------------------------------------------------ (e)
     rep.rule("C02.e-remove-scoped-to-context",
              "Memory.remove skips the contexts other than the requested one before un-linking, and deletes the index and "
@@ -231,11 +254,8 @@ EXEMPT: dict[tuple[str, str], str] = {}
 
 from vlib.core import layer as _layer  # noqa: E402
 
-_run_base = run
 
-
-def run(repo: Repo, rep: Report) -> None:  # noqa: F811
-    _layer(rep, _run_base, repo)
+def _rule_h(repo: Repo, rep: Report) -> None:
     gm = repo.mod("rdflib.graph")
     # ------------------------------------------------------------------ (h)
     rep.rule("C02.h-quads-of-a-named-graph-only",
@@ -252,6 +272,9 @@ def run(repo: Repo, rep: Report) -> None:  # noqa: F811
                "reported graphs filtered by the requested one" if filt else
                "every graph the store reports for a matching triple is yielded, whatever graph the pattern names: ds.quads((None, None, None, g1)) contains (s, p, o, g2) whenever g2 holds a triple that g1 holds too", node=l)
 
+
+def _rule_i(repo: Repo, rep: Report) -> None:
+    gm = repo.mod("rdflib.graph")
     # ------------------------------------------------------------------ (i)
     rep.rule("C02.i-write-without-graph-goes-to-default-graph",
              "ConjunctiveGraph._spoc, on the write path (default=True), never hands the store context=None for a 4-tuple whose graph is None: Store.add with context None files the "
@@ -292,11 +315,7 @@ def run(repo: Repo, rep: Report) -> None:  # noqa: F811
            node=ns.hits[0][0] if ns.hits else sf)
 
 
-_run_base2 = run
-
-
-def run(repo: Repo, rep: Report) -> None:  # noqa: F811
-    _layer(rep, _run_base2, repo)
+def _rule_j(repo: Repo, rep: Report) -> None:
     from vlib import argswap
 
     rep.rule("C02.j-no-swapped-arguments-in-graph-and-stores",
@@ -305,38 +324,36 @@ def run(repo: Repo, rep: Report) -> None:  # noqa: F811
     argswap.scan(repo, rep, "C02.j-no-swapped-arguments-in-graph-and-stores", ["rdflib.graph", "rdflib.store"] + sorted(m for m in repo.modules if m.startswith("rdflib.plugins.stores.")))
 
 
-_run_base3 = run
-
-
-def run(repo: Repo, rep: Report) -> None:  # noqa: F811
-    _layer(rep, _run_base3, repo)
+def _rule_k(repo: Repo, rep: Report) -> None:
     mem = repo.mod("rdflib.plugins.stores.memory")
-    gm = repo.mod("rdflib.graph")
     # ------------------------------------------------------------------ (k)
     rep.rule("C02.k-removing-triples-keeps-the-graph-registered",
              "Memory.remove forgets a context (drops it from the store's registry of graphs) only on a store that is not graph-aware: on a graph-aware store (every Dataset) a graph "
              "exists until remove_graph is called, an emptied graph - `ds.remove((None, None, None, g))`, CLEAR GRAPH - is still listed by graphs()/contexts()", floor=1)
+    # stated on roles and dominance (vlib/h_c02): the registry of graphs is the state of the store that the public add_graph puts its argument into,
+    # whatever the attribute is called; a construct of remove() that takes something out of it (a removing call, del, -=, a rebinding, also through
+    # a local alias) stands in a statement that is reached only on paths on which <receiver>.graph_aware has been found false - `a and b and not
+    # aware`, `not (a' or b' or aware)`, nested ifs, a guard clause, a flag variable are one and the same to the path-sensitive walk.
+    from vlib import h_c02 as H
+
     rf = mem.func("Memory.remove")
-    n_sites = 0
-    for c in own_nodes(rf):
-        is_drop = (isinstance(c, ast.Call) and isinstance(c.func, ast.Attribute) and c.func.attr in ("remove", "discard", "pop") and "all_contexts" in norm(c.func.value)) or (
-            isinstance(c, ast.Delete) and any("all_contexts" in norm(t) for t in c.targets))
-        if not is_drop:
-            continue
-        n_sites += 1
-        guarded = False
-        child = c
-        for p_ in mem.parents(c):
-            if isinstance(p_, ast.If) and any(child is x or any(child is y for y in ast.walk(x)) for x in p_.body) and "not self.graph_aware" in norm(p_.test):
-                guarded = True
-            if p_ is rf:
-                break
-            child = p_
+    recv = H.receiver_name(rf) or "self"
+    reg = H.registry_attrs(mem, "Memory", "add_graph")
+    if not reg:
+        raise AnalysisError("Memory.add_graph: the state that registers a graph (what add_graph puts its argument into) was not found")
+    rep.analysed("%s:Memory.remove" % mem.rel, "%s:Memory.add_graph" % mem.rel)
+    drops = H.registry_drops(rf, recv, reg)
+    guarded_at = H.reached_only_where(rf, drops, lambda e: isinstance(e, ast.Attribute) and e.attr == "graph_aware" and isinstance(e.value, ast.Name) and e.value.id == recv, False)
+    for c in drops:
+        guarded = guarded_at.get(id(c), False)
         rep.ob("C02.k-removing-triples-keeps-the-graph-registered", mem, "Memory.remove", c, guarded,
                "only when the store is not graph-aware" if guarded else "a wildcard removal restricted to a graph unregisters that graph also on a graph-aware store: the Dataset forgets a graph that remove_graph was never called on", node=c)
-    if n_sites == 0:
+    if not drops:
         rep.ob("C02.k-removing-triples-keeps-the-graph-registered", mem, "Memory.remove", "no context is unregistered by remove()", True, "", node=rf)
 
+
+def _rule_l(repo: Repo, rep: Report) -> None:
+    gm = repo.mod("rdflib.graph")
     # ------------------------------------------------------------------ (l)
     rep.rule("C02.l-graphs-are-looked-up-by-term-equality",
              "ConjunctiveGraph.get_graph / get_context / Dataset.graph select a graph by comparing identifiers as TERMS (x.identifier == identifier): a blank-node name _:L and an IRI "
@@ -353,11 +370,7 @@ def run(repo: Repo, rep: Report) -> None:  # noqa: F811
                    "term equality" if not by_text else "identifiers are compared as text: quads written with a Graph object named _:L land in the graph <L> (or vice versa), whichever the store lists first", node=c)
 
 
-_run_base4 = run
-
-
-def run(repo: Repo, rep: Report) -> None:  # noqa: F811
-    _layer(rep, _run_base4, repo)
+def _rule_m(repo: Repo, rep: Report) -> None:
     from vlib import h_c02 as H
 
     T = repo.typed
@@ -415,6 +428,16 @@ def run(repo: Repo, rep: Report) -> None:  # noqa: F811
                            "with %s a Dataset/ConjunctiveGraph on self.store this return hands the dataset object itself back as the graph: quads written with it go to a hidden graph "
                            "named by the dataset's own BNode identifier, not to its default graph" % p_, node=h)
 
+
+def _rule_n(repo: Repo, rep: Report) -> None:
+    from vlib import h_c02 as H
+
+    T = repo.typed
+    gm = repo.mod("rdflib.graph")
+    CG = "rdflib.graph.ConjunctiveGraph"
+    if CG not in T.classes or "rdflib.graph.Dataset" not in T.classes:
+        raise AnalysisError("ConjunctiveGraph / Dataset not found among the typed classes")
+
     # ------------------------------------------------------------------ (n)
     # Dataset.__iter__ is overridden: it yields the QUADS of ALL graphs, whatever default_union says.  A serializer is handed
     # `Graph` (statically) that may be a Dataset; it must enumerate it through the query API (triples(), subjects(), contexts(), quads() ...),
@@ -462,6 +485,16 @@ def run(repo: Repo, rep: Report) -> None:  # noqa: F811
             rep.ob("C02.n-serializers-enumerate-the-graph-through-its-query-api", m, cname, "every enumeration of <receiver>.%s in %s goes through a method of the graph" % (gattr, cname), True, "", node=m.cls(cname))
     if n_cls == 0:
         raise AnalysisError("no Serializer subclass found")
+
+
+def _rule_o(repo: Repo, rep: Report) -> None:
+    from vlib import h_c02 as H
+
+    T = repo.typed
+    gm = repo.mod("rdflib.graph")
+    CG = "rdflib.graph.ConjunctiveGraph"
+    if CG not in T.classes or "rdflib.graph.Dataset" not in T.classes:
+        raise AnalysisError("ConjunctiveGraph / Dataset not found among the typed classes")
 
     # ------------------------------------------------------------------ (o)
     # "a query restricted to an empty or unknown graph returns nothing rather than falling back": where the query engine or the
@@ -522,6 +555,16 @@ def run(repo: Repo, rep: Report) -> None:  # noqa: F811
                     # if <empty>: if <unknown>: fallback   - the same conjunction written as nested ifs
                     inner = inner.body[0]
                     why = H.consults_registry(mm, inner.test, enclosing, REG)
+                if not why and isinstance(owner, ast.If) and H.under_emptiness(owner.test, s_) is False:
+                    # the same decision with the arms the other way round: `if <not empty>: continue` / `if <not empty>: .. else: <empty arm>` - the arm
+                    # taken because the graph is empty is what runs exactly when the test is false; it must be one `if` on the registry, as above
+                    arm = [x for x in (H.arm_reached_only_when_false(mm, owner) or []) if not isinstance(x, ast.Pass)]
+                    if len(arm) == 1 and isinstance(arm[0], ast.If):
+                        inner = arm[0]
+                        why = H.consults_registry(mm, inner.test, enclosing, REG)
+                        while not why and not inner.orelse and len(inner.body) == 1 and isinstance(inner.body[0], ast.If):
+                            inner = inner.body[0]
+                            why = H.consults_registry(mm, inner.test, enclosing, REG)
                 if not why and isinstance(owner, ast.If) and H.both_arms_raise(mm, owner):
                     why = "(none needed: both the branch and its continuation raise - the test only selects the error message)"
                 rep.ob("C02.o-emptiness-does-not-decide-existence", mm, truthy.where_of(mm, s_, q), "%s [in %s]" % (norm(s_), kind), bool(why),
@@ -531,31 +574,32 @@ def run(repo: Repo, rep: Report) -> None:  # noqa: F811
         rep.analysed("%s:%s" % (mm.rel, q))
 
 
-_run_base5 = run
+EXPLANATION += (
+    " (p) every element a listing generator of the dataset classes yields depends on every selector parameter; (q) a context given by name is resolved to a graph of "
+    "this store before any self.store call; (r) a graph view the SPARQL engine builds on a dataset's store and fills is also registered; (s) every update evaluator can "
+    "return normally; (t) CREATE / DROP reach the store's add_graph / remove_graph as Dataset.graph() / remove_graph() do.")
+
+_CG = "rdflib.graph.ConjunctiveGraph"
+_GRAPH = "rdflib.graph.Graph"
 
 
-def run(repo: Repo, rep: Report) -> None:  # noqa: F811
-    _layer(rep, _run_base5, repo)
-    import re
-
-    from vlib import h_c02 as H
-
+def _ds_classes(repo: Repo) -> list:
+    """(module, class name) of ConjunctiveGraph and its subclasses defined in the package"""
     T = repo.typed
-    gm = repo.mod("rdflib.graph")
-    CG = "rdflib.graph.ConjunctiveGraph"
-    GRAPH = "rdflib.graph.Graph"
     ds_classes = []
-    for cls in sorted(T.subclasses(CG)):
+    for cls in sorted(T.subclasses(_CG)):
         modname, _, cname = cls.rpartition(".")
         if modname in repo.modules and repo.mod(modname).has(cname):
             ds_classes.append((repo.mod(modname), cname))
     if len(ds_classes) < 2:
         raise AnalysisError("ConjunctiveGraph and its subclasses not found")
-    rep.extra["explanation"] = rep.extra.get("explanation", "") + (
-        " (p) every element a listing generator of the dataset classes yields depends on every selector parameter; (q) a context given by name is resolved to a graph of "
-        "this store before any self.store call; (r) a graph view the SPARQL engine builds on a dataset's store and fills is also registered; (s) every update evaluator can "
-        "return normally; (t) CREATE / DROP reach the store's add_graph / remove_graph as Dataset.graph() / remove_graph() do.")
+    return ds_classes
 
+
+def _rule_p(repo: Repo, rep: Report) -> None:
+    from vlib import h_c02 as H
+
+    ds_classes = _ds_classes(repo)
     # ------------------------------------------------------------------ (p)  F210
     # graphs(triple) / contexts(triple) / quads(pattern) / triples(pattern, context) are LISTINGS RESTRICTED BY A SELECTOR.  Every element
     # such a generator produces must be restricted by every selector parameter: it is drawn from an enumeration that received the
@@ -581,6 +625,13 @@ def run(repo: Repo, rep: Report) -> None:  # noqa: F811
                            why or "this element is produced whatever `%s` is: neither computed from it, nor drawn from an enumeration that received it, nor under a test of it - "
                            "the listing restricted by %s contains an element that does not answer the restriction" % (p_, p_), node=y)
 
+
+def _rule_q(repo: Repo, rep: Report) -> None:
+    from vlib import h_c02 as H
+
+    T = repo.typed
+    GRAPH = _GRAPH
+    ds_classes = _ds_classes(repo)
     # ------------------------------------------------------------------ (q)  F211
     # A context may be given by NAME to every method of the dataset classes (get_context/_graph/_graph_view turn it into a graph of this store).
     # The store keys contexts by graph objects: a bare identifier handed to self.store.<anything> names a context nobody ever wrote to.
@@ -617,6 +668,13 @@ def run(repo: Repo, rep: Report) -> None:  # noqa: F811
                            "with %s = URIRef('g') this call hands the bare name to the store as the context: the store's contexts are graph objects (keyed by class and identifier of "
                            "the graph), so the call addresses a context nobody wrote to - nothing is removed / found / added to <g>" % p_, node=h)
 
+
+def _rule_r(repo: Repo, rep: Report) -> None:
+    from vlib import h_c02 as H
+
+    T = repo.typed
+    CG, GRAPH = _CG, _GRAPH
+    graph_names = {c.rsplit(".", 1)[-1] for c in T.subclasses(GRAPH)}
     # ------------------------------------------------------------------ (r)  F284
     # Graph(store=ds.store, identifier=n) is only a VIEW of the store: writing zero triples through it does not make <n> a graph of ds.
     # Where the SPARQL engine builds such a view on a dataset's store and fills it, it also registers it (add_graph) - or gets it from Dataset.graph().
@@ -667,7 +725,10 @@ def run(repo: Repo, rep: Report) -> None:  # noqa: F811
             raise AnalysisError("QueryContext.__init__: neither a graph view on the query dataset's store nor a Dataset.graph() call found: rule C02.r must be re-derived")
         rep.ob("C02.r-a-view-filled-on-a-dataset-store-is-also-registered", sp_, "QueryContext.__init__", made[0], True, "named graphs of the query dataset are created through the registering API", node=made[0])
 
-    # ------------------------------------------------------------------ (s, t)  F285
+
+def _update_arms(repo: Repo):
+    from vlib import h_c02 as H
+
     up = repo.mod("rdflib.plugins.sparql.update")
     top = {q: f for q, f in up.functions() if "." not in q}
     if "evalUpdate" not in top:
@@ -675,6 +736,12 @@ def run(repo: Repo, rep: Report) -> None:  # noqa: F811
     arms = H.name_dispatch(top["evalUpdate"], lambda n: n in top)
     if len(arms) < 11:
         raise AnalysisError("evalUpdate: expected 11 dispatch arms, found %s" % sorted(arms))
+    return up, top, arms
+
+
+def _rule_s(repo: Repo, rep: Report) -> None:
+    # ------------------------------------------------------------------ (s, t)  F285
+    up, top, arms = _update_arms(repo)
     rep.rule("C02.s-every-update-operation-can-succeed",
              "every evaluator that evalUpdate dispatches an operation to has a path from its entry to a normal return: an evaluator whose every path ends in `raise` makes the operation "
              "fail for every request, and its SILENT form do nothing - CREATE GRAPH <g> raised 'Create not implemented!' whether or not <g> existed", floor=11)
@@ -686,6 +753,12 @@ def run(repo: Repo, rep: Report) -> None:  # noqa: F811
         rep.ob("C02.s-every-update-operation-can-succeed", up, hn, "operation %s: entry ->* normal return" % op, ok,
                "" if ok else "every path through %s ends in a raise: %s never succeeds (and %s SILENT changes nothing)" % (hn, op.upper(), op.upper()), node=f)
 
+
+def _rule_t(repo: Repo, rep: Report) -> None:
+    from vlib import h_c02 as H
+
+    gm = repo.mod("rdflib.graph")
+    up, top, arms = _update_arms(repo)
     # sibling agreement with the Dataset API: what Dataset.graph(n) / Dataset.remove_graph(n) do to the store's registry of graphs, CREATE / DROP do too
     rep.rule("C02.t-create-and-drop-change-the-registry-of-graphs",
              "the evaluators of CREATE and DROP reach (directly or through a helper of the module) the store call by which Dataset.graph() / Dataset.remove_graph() register / forget a "
@@ -712,3 +785,12 @@ def run(repo: Repo, rep: Report) -> None:  # noqa: F811
                 break
         rep.ob("C02.t-create-and-drop-change-the-registry-of-graphs", up, arms[op], "%s reaches .%s()" % (op.upper(), "() / .".join(sorted(want))), bool(why),
                why or "%s never calls %s: the registry of graphs of a graph-aware store is not changed by %s (Dataset.%s() does call store.%s)" % (arms[op], " / ".join(sorted(want)), op.upper(), api, scalls[0]), node=f)
+
+
+def run(repo: Repo, rep: Report) -> None:
+    """one layer per rule: a rule that loses its anchor on the tree or on one equivalent view of it (a private function renamed, a helper that
+    a view inlined away) does not take its neighbours with it, and the per-rule merge over the views can work (DESIGN §14.2)"""
+    rep.extra["explanation"] = EXPLANATION
+    for part in (_rule_a, _rule_b, context_filter_rule, write_path_rules, _rule_c, _rule_d, _rule_e, _rule_h, _rule_i, _rule_j, _rule_k, _rule_l,
+                 _rule_m, _rule_n, _rule_o, _rule_p, _rule_q, _rule_r, _rule_s, _rule_t):
+        _layer(rep, part, repo)
